@@ -113,21 +113,37 @@ def errName : Err → String
 
 def tsKnownFn (n : Nat) : Bool := Fit.Gen.Wire.tsKnownMesgs.contains n
 
-def showItem : Item → String
+/-- `descs`: the field descriptions the decoder holds when it decodes the developer fields of the record (the record's
+own description included); the last number is `len(mesg.DeveloperFields)` -/
+def showItem (descs : List Desc) : Item → String
   | .def_ _ d =>
     let fs := ";".intercalate (d.fields.map fun f => s!"{f.num}.{f.size}.{f.bt}")
     let ds := ";".intercalate (d.devs.map fun f => s!"{f.num}.{f.size}.{f.idx}")
     s!" D{d.header}.{d.arch}.{d.mesgNum}({fs})({ds})"
   | .data r =>
     let ts := match r.ts with | some t => toString t | none => "-"
-    let n := (r.fields.filter fun (fd, _) => fd.size != 0).length + (if r.ts.isSome then 1 else 0)
-    s!" R{r.header}.{r.num}.{ts}.{n}"
+    let n := (readFields r.fields).length + (if r.ts.isSome then 1 else 0)
+    s!" R{r.header}.{r.num}.{ts}.{n}.{(devsKept descs r.devs).length}"
 
-def showEv : Ev → String
-  | .item i => showItem i
-  | .seq f =>
-    let n := (f.items.filter fun | .data _ => true | _ => false).length
-    s!" S{f.hdr.size}.{f.hdr.protoVer}.{f.hdr.profileVer}.{f.hdr.dataSize}.{f.hdr.crc}.{f.crc}.{n}"
+def showSeq (f : DecFit) : String :=
+  let n := (f.items.filter fun | .data _ => true | _ => false).length
+  s!" S{f.hdr.size}.{f.hdr.protoVer}.{f.hdr.profileVer}.{f.hdr.dataSize}.{f.hdr.crc}.{f.crc}.{n}"
+
+/-- the events of a run; the field descriptions are threaded through the data records of a sequence exactly as
+`decodeRecord` does (`noteDesc`) and dropped at the end of the sequence -/
+def showEvs (evs : List Ev) : String := Id.run do
+  let mut descs : List Desc := []
+  let mut out := ""
+  for e in evs do
+    match e with
+    | .item (.data r) =>
+      descs := noteDesc descs r.num r.fields
+      out := out ++ showItem descs (.data r)
+    | .item i => out := out ++ showItem descs i
+    | .seq f =>
+      descs := []
+      out := out ++ showSeq f
+  return out
 
 def execDecW (args : List String) : String :=
   let (kv, rest) := splitKV args
@@ -138,7 +154,7 @@ def execDecW (args : List String) : String :=
     | some bs =>
       let chk := (kv.lookup "chk") != some "0"
       let (evs, e) := decodeStream tsKnownFn chk (bs.length + 1) true bs
-      (match e with | some e => errName e | none => "end") ++ String.join (evs.map showEv)
+      (match e with | some e => errName e | none => "end") ++ showEvs evs
   | _ => "bad-op"
 
 def hDecW : Handler := modelOnly execDecW
@@ -165,7 +181,7 @@ def parseRt (args : List String) : Option RtIn :=
     some ⟨o, fs.map (·.1), fs.findSome? (·.2)⟩
 
 def showStream (r : List Ev × Option Err) : String :=
-  (match r.2 with | some e => errName e | none => "end") ++ String.join (r.1.map showEv)
+  (match r.2 with | some e => errName e | none => "end") ++ showEvs r.1
 
 def execRtW (args : List String) : String :=
   match parseRt args with
@@ -181,24 +197,24 @@ def execRtW (args : List String) : String :=
       let bs := encodeChain i.o accepted
       showStream (decodeStream tsKnownFn true (bs.length + 1) true bs)
 
-/-- records of one decoded sequence as the implementation reported them: (num, ts, nfields) -/
-def parseEvents (toks : List String) : Option (List (List (Nat × Option Nat × Nat) × Nat)) :=
-  let rec go : List String → List (Nat × Option Nat × Nat) → List (List (Nat × Option Nat × Nat) × Nat) →
-      Option (List (List (Nat × Option Nat × Nat) × Nat))
+/-- records of one decoded sequence as the implementation reported them: (num, ts, nfields, ndevfields) -/
+def parseEvents (toks : List String) : Option (List (List (Nat × Option Nat × Nat × Nat) × Nat)) :=
+  let rec go : List String → List (Nat × Option Nat × Nat × Nat) → List (List (Nat × Option Nat × Nat × Nat) × Nat) →
+      Option (List (List (Nat × Option Nat × Nat × Nat) × Nat))
     | [], [], acc => some acc.reverse
     | [], _ :: _, _ => none          -- records after the last completed sequence
     | t :: ts, cur, acc =>
       if t.startsWith "D" then go ts cur acc
       else if t.startsWith "R" then
         match (t.drop 1).toString.splitOn "." with
-        | [_, n, tsS, k] =>
-          match n.toNat?, k.toNat? with
-          | some n, some k =>
+        | [_, n, tsS, k, kd] =>
+          match n.toNat?, k.toNat?, kd.toNat? with
+          | some n, some k, some kd =>
             let tsV := if tsS == "-" then some none else tsS.toNat?.map some
             match tsV with
-            | some v => go ts ((n, v, k) :: cur) acc
+            | some v => go ts ((n, v, k, kd) :: cur) acc
             | none => none
-          | _, _ => none
+          | _, _, _ => none
         | _ => none
       else if t.startsWith "S" then
         match ((t.drop 1).toString.splitOn ".").getLast? with
@@ -210,13 +226,23 @@ def parseEvents (toks : List String) : Option (List (List (Nat × Option Nat × 
   go toks [] []
 
 /-- the property on one message: number, and either all fields back, or the original timestamp
-reconstructed and the other fields back (counted by the number of non-empty fields) -/
-def recOK (arch : Nat) (m : WMsg) (r : Nat × Option Nat × Nat) : Bool :=
+reconstructed and the other fields back (counted by the number of non-empty fields); every non-empty developer
+field that has a field description (`descs`: those written so far in the sequence, this message included) back -/
+def recOK (arch : Nat) (descs : List Desc) (m : WMsg) (r : Nat × Option Nat × Nat × Nat) : Bool :=
   let nz (fs : List WField) := (fs.filter fun f => f.data.length != 0).length
   r.1 == m.num &&
+  r.2.2.2 == (m.devs.filter fun d => (findDesc descs ⟨d.num, d.data.length % 256, d.idx⟩).isSome && d.data.length != 0).length &&
   match r.2.1 with
-  | none => r.2.2 == nz m.fields
-  | some t => t == tsOf arch m && tsOf arch m != u32Invalid && r.2.2 == nz (removeFirst tsFieldNum m.fields) + 1
+  | none => r.2.2.1 == nz m.fields
+  | some t => t == tsOf arch m && tsOf arch m != u32Invalid && r.2.2.1 == nz (removeFirst tsFieldNum m.fields) + 1
+
+/-- `recOK` over the messages of a sequence, the written field descriptions threaded as the decoder records them -/
+def recsOK (arch : Nat) : List Desc → List WMsg → List (Nat × Option Nat × Nat × Nat) → Bool
+  | _, [], [] => true
+  | descs, m :: ms, r :: rs =>
+    let descs' := noteDesc descs m.num (wireFields m)
+    recOK arch descs' m r && recsOK arch descs' ms rs
+  | _, _, _ => false
 
 def propRtW (args : List String) (impl : String) : String :=
   match parseRt args with
@@ -224,6 +250,10 @@ def propRtW (args : List String) (impl : String) : String :=
   | some i =>
     if i.rejected.isSome then "n/a"
     else if !optsOKB i.o || !(i.files.all fun f => fitOKB i.o f.1 f.2) then "n/a"   -- outside what validation lets through
+    -- a developer field written under a field description with an invalid base type: the message validator never lets it
+    -- through (family rtw encodes with a PASS-THROUGH validator, which is not one of the validator options C01 quantifies
+    -- over); the decoder rejects the stream (`errInvalidBaseType`) — outside the property's domain, see FitProps/C01.lean
+    else if !(i.files.all fun f => msgsDescOK [] f.2) then "n/a"
     else
       match (impl.splitOn " ").filter (· ≠ "") with
       | [] => "fail:no-answer"
@@ -235,7 +265,7 @@ def propRtW (args : List String) (impl : String) : String :=
           if seqs.length != i.files.length then "fail:sequence-count" else
           let bad := (seqs.zip i.files).findSome? fun (sq, f) =>
             if sq.1.length != f.2.length || sq.2 != f.2.length then some "fail:message-count"
-            else if (sq.1.zip f.2).all (fun (r, m) => recOK i.o.arch m r) then none else some "fail:message"
+            else if recsOK i.o.arch [] f.2 sq.1 then none else some "fail:message"
           bad.getD "ok"
 
 /-- no known-finding class is left for the round trip: KF-C01-ts (compressed headers with timestamps that are
